@@ -543,7 +543,9 @@ def judge(before, op, expect, after_model, feats, raised, obs, stage):
         if detail:
             # witness: operation + exception class + the one input-shape feature the removal code branches on
             # (the others would only split one defect over many signatures)
-            out.append(("failed-operation-leaves-consistent", f"{pre}{head}{ftxt} raised {raised}", [{"input": geo_feats}] + detail[:4]))
+            # ... + what is left inconsistent: the first data child (in child order) with a wrong length, else the cells
+            first = next((x["what"] for x in detail if x.get("clause") == "one-entry-per-element"), "cells")
+            out.append(("failed-operation-leaves-consistent", f"{pre}{head}{ftxt} raised {raised}: {first}", [{"input": geo_feats}] + detail[:4]))
         out += [(c, w, d) for c, w, d in inv if "unreadable" in w]
         return out
 
